@@ -22,6 +22,13 @@ pub struct PathCase {
 }
 
 #[derive(Clone, Debug, Serialize, Deserialize)]
+pub struct Shaped {
+    pub pc: PathCase,
+    /// bit 0: the server folds form bodies; bit 1: the request is a form POST; bit 2: query carrier; bit 3: the form body is empty
+    pub shape: u8,
+}
+
+#[derive(Clone, Debug, Serialize, Deserialize)]
 pub struct SpellPair {
     pub segments: Vec<B>,
     pub trailing: bool,
@@ -48,6 +55,14 @@ pub fn subs() -> Vec<Box<dyn AnySub>> {
             check: check_respell,
         }),
         Box::new(Sub { name: "e2e", quick: 15_000, thorough: 200_000, strat: random_path, check: check_e2e }),
+        // the same paths under every option combination and request shape: the canonical path is a function of (path, mode) only
+        Box::new(Sub {
+            name: "e2e-all-options-and-shapes",
+            quick: 15_000,
+            thorough: 200_000,
+            strat: || (random_path(), 0u8..16).prop_map(|(pc, shape)| Shaped { pc, shape }).boxed(),
+            check: |sc, cc| check_e2e_shape(&sc.pc, sc.shape, cc),
+        }),
     ]
 }
 
@@ -283,16 +298,29 @@ pub fn check_respell(sp: &SpellPair, cc: &mut CaseCtx) -> CheckResult {
 
 /// End to end: a reference-signed request with this path is accepted / refused as the model says.
 pub fn check_e2e(pc: &PathCase, cc: &mut CaseCtx) -> CheckResult {
+    check_e2e_shape(pc, 0, cc)
+}
+
+pub fn check_e2e_shape(pc: &PathCase, shape: u8, cc: &mut CaseCtx) -> CheckResult {
     if !pc.path.starts_with('/') || pc.path.contains('?') || pc.path.contains('#') {
         return Ok(());
     }
-    let base = WireRequest { method: "GET".into(), uri: pc.path.clone(), version: 11, headers: vec![("Host".into(), B::from("h.example"))], body: B::default() };
+    let mut base = WireRequest { method: "GET".into(), uri: pc.path.clone(), version: 11, headers: vec![("Host".into(), B::from("h.example"))], body: B::default() };
+    if shape & 2 != 0 {
+        base.method = "POST".into();
+        base.headers.push(("Content-Type".into(), B::from("application/x-www-form-urlencoded")));
+        if shape & 8 == 0 {
+            base.body = B::from("Action=ListThings&Version=2015-08-30");
+        }
+    }
     if exec::build_http(&base).is_err() {
         cc.class("unrepresentable");
         return Ok(());
     }
-    let cfg = ServerConfig { s3: pc.s3, ..ServerConfig::default() };
-    let spec = SignSpec::basic(Carrier::Header, "AKIDEXAMPLE", "secret", "20150830T123600Z");
+    let cfg = ServerConfig { s3: pc.s3, fold: shape & 1 != 0, ..ServerConfig::default() };
+    let spec = SignSpec::basic(if shape & 4 != 0 { Carrier::Query } else { Carrier::Header }, "AKIDEXAMPLE", "secret", "20150830T123600Z");
+    cc.class_if(shape & 3 == 3, "folded-form");
+    cc.class_if(shape & 3 == 3 && pc.s3, "folded-form-in-s3-mode");
     let req = match sign(&base, &cfg, &spec) {
         Ok(s) => s.req,
         // invalid path: nothing to sign; send it with a dummy signature, the path rule must fire first
@@ -306,7 +334,7 @@ pub fn check_e2e(pc: &PathCase, cc: &mut CaseCtx) -> CheckResult {
         cc.unspecified = true;
     } else if nontrivial_path(&pc.path) {
         cc.class(if a.verdict().is_accept() { "e2e-accept" } else { "e2e-reject" });
-        cc.nontrivial(digest_of(&[pc.path.as_bytes(), &[pc.s3 as u8]]));
+        cc.nontrivial(digest_of(&[pc.path.as_bytes(), &[pc.s3 as u8, shape]]));
     }
     check_against_model(&a, &o).map_err(|f| {
         if let Some(c2) = super::c01::escape_plus_in_path(&case) {
